@@ -474,6 +474,7 @@ func xmssFastSignMessage(hashFunction HashFunction, params *XMSSParams, sk []uin
 	copy(sigMsg[sigMsgLen:sigMsgLen+params.h*params.n], bdsState.auth[:params.h*params.n])
 
 	if idx < (uint32(1)<<params.h)-1 {
+		verifRound(0, idx)
 		bdsRound(hashFunction, bdsState, idx, skSeed, params, pubSeed, &otsAddr)
 		bdsTreeHashUpdate(hashFunction, bdsState, (params.h-params.k)>>1, skSeed, params, pubSeed, &otsAddr)
 	}
